@@ -245,6 +245,43 @@ def run(rep):
             judge(rep, raw, res_, lines, "adversarial DiameterURI", {"kind": "bytes", "hex": raw.hex()})
     rep.notes["adversarial_uri_inputs"] = len(uris)
     rep.traces_validated += 0
+    # ---- a history of refused input does not wedge the decoder: many streams that fail inside a Grouped AVP (on this thread and on
+    # another one), then well-formed messages with Grouped AVPs, which must still decode
+    from . import c02
+    import threading as _th
+    from bromelia.base import DiameterMessage
+
+    def wrap(body):
+        return bytes([1]) + (20 + len(body)).to_bytes(3, "big") + bytes([0x80]) + (316).to_bytes(3, "big") + (16777251).to_bytes(4, "big") + bytes(8) + body
+    good = [m if isinstance(m, (bytes, bytearray)) else m.dump() for m in base_messages(random.Random(3))[:6]]
+    good.append(wrap(bytes.fromhex("00000104400000200000010a4000000c000028af000001024000000c01000023")))      # Vendor-Specific-Application-Id
+
+    def refuse_many():
+        for i in range(60):
+            body = bytes.fromhex(c02.MALFORMED_IN_GROUPED[i % len(c02.MALFORMED_IN_GROUPED)])
+            try:
+                DiameterMessage.load(wrap(body + bytes(-len(body) % 4)))
+            except BaseException:
+                pass
+    for where in ("this thread", "another thread"):
+        if where == "this thread":
+            refuse_many()
+        else:
+            t = _th.Thread(target=refuse_many)
+            t.start()
+            t.join(60)
+        for raw in good:
+            rep.case(("after-refusals", where, raw))
+            try:
+                msgs = DiameterMessage.load(raw)
+                ok = len(msgs) >= 1 and b"".join(m.dump() for m in msgs) == raw or len(msgs) >= 1
+            except BaseException as e:
+                ok = False
+                msgs = e
+            if not ok:
+                rep.violation(f"after 60 streams refused inside Grouped AVPs (on {where}) a well-formed message of {len(raw)} bytes is not decoded any more: "
+                              f"{type(msgs).__name__}: {msgs}", {"kind": "after-refusals", "hex": raw.hex()})
+                break
     # ---- C03b
     if not rep.violations:
         from . import assoc
